@@ -37,7 +37,7 @@ Section Bisect.
     In x R /\ (exists r, In r (roots_of g (st_bad st)) /\ anc g x r) /\
     ~ (exists y, In y (st_good st) /\ anc g x y) /\ ~ In x (st_bad st) /\ ~ In x (st_skipped st).
   Proof.
-    unfold is_candidate. rewrite !andb_true_iff, !negb_true_iff, memn_spec, !memn_false.
+    unfold is_candidate, cand_with. rewrite !andb_true_iff, !negb_true_iff, memn_spec, !memn_false.
     fold (roots_of g (st_bad st)). fold (heads_of g (st_good st)).
     fold (anc_any g (roots_of g (st_bad st)) x). fold (anc_any g (heads_of g (st_good st)) x).
     rewrite anc_any_spec by assumption.
@@ -59,7 +59,10 @@ Section Bisect.
   Qed.
 
   Lemma candidates_in st x : In x (candidates g t R st) <-> x < n /\ is_candidate t R st x = true.
-  Proof. unfold candidates. now rewrite filter_In, pos_desc_in. Qed.
+  Proof.
+    change (candidates g t R st) with (filter (is_candidate t R st) (pos_desc g)).
+    now rewrite filter_In, pos_desc_in.
+  Qed.
 
   Lemma next_commit_in st x : next_commit g t R st = Some x -> In x (candidates g t R st).
   Proof.
@@ -315,7 +318,7 @@ Section Bisect.
         apply heads_of_spec in Hh; [|assumption]. exists h. split; [apply Hh|assumption].
       - destruct (memn p (st_bad st)) eqn:Eb; [right; left; now apply memn_spec|].
         destruct (memn p (st_skipped st)) eqn:Es; [right; right; now apply memn_spec|].
-        exfalso. unfold is_candidate in E.
+        exfalso. unfold is_candidate, cand_with in E.
         fold (roots_of g (st_bad st)) in E. fold (heads_of g (st_good st)) in E.
         fold (anc_any g (roots_of g (st_bad st)) p) in E.
         fold (anc_any g (heads_of g (st_good st)) p) in E.
@@ -566,7 +569,10 @@ Section Bisect.
       (forall y, y < n -> is_candidate t R (mark st x e) y = is_candidate t R st y && f y) ->
       candidates g t R (mark st x e) = filter f (candidates g t R st).
     Proof.
-      intros H. unfold candidates. rewrite filter_filter. apply filter_ext_in.
+      intros H.
+      change (candidates g t R (mark st x e)) with (filter (is_candidate t R (mark st x e)) (pos_desc g)).
+      change (candidates g t R st) with (filter (is_candidate t R st) (pos_desc g)).
+      rewrite filter_filter. apply filter_ext_in.
       intros y Hy. apply H. now apply pos_desc_in.
     Qed.
 
@@ -625,7 +631,10 @@ Section Bisect.
     Qed.
 
     Lemma candidates_sdesc st : sdesc (candidates g t R st).
-    Proof. unfold candidates. apply sdesc_filter, sdesc_pos_desc. Qed.
+    Proof.
+      change (candidates g t R st) with (filter (is_candidate t R st) (pos_desc g)).
+      apply sdesc_filter, sdesc_pos_desc.
+    Qed.
 
     Lemma next_commit_some st x : next_commit g t R st = Some x ->
       x = nth (length (candidates g t R st) / 2) (candidates g t R st) 0 /\
@@ -690,8 +699,10 @@ Section Bisect.
         apply heads_of_spec in Hx; [|assumption]. destruct Hx as [Hx _]. now apply canon_in in Hx. }
       apply (run_log _ _ _ _ _ (Nat.log2_up (S (length (canon g R))))) in E; [simpl in E; lia|assumption|].
       assert (L : length (candidates g t R (init_state g t R)) <= length (canon g R)).
-      { unfold candidates, canon. apply filter_len_mono. intros x Hx.
-        unfold is_candidate in Hx. rewrite !andb_true_iff in Hx. tauto. }
+      { change (candidates g t R (init_state g t R))
+          with (filter (is_candidate t R (init_state g t R)) (pos_desc g)).
+        unfold canon. apply filter_len_mono. intros x Hx.
+        unfold is_candidate, cand_with in Hx. rewrite !andb_true_iff in Hx. tauto. }
       destruct (length (canon g R)) as [|m] eqn:Em.
       - simpl. lia.
       - pose proof (Nat.log2_up_spec (S (S m)) ltac:(lia)) as [_ H]. lia.
